@@ -335,13 +335,21 @@ func validateEpicRef(graph *Graph, epicID string) error {
 }
 
 func createTask(dir string, opts GlobalOptions, epicID string, isEpic bool, title, body string) (createOutput, error) {
-	eventsPath := getEventsPath(dir)
-	lockPath := filepath.Join(dir, "lock")
-	return createTaskWithDir(dir, opts, lockPath, eventsPath, epicID, isEpic, title, body)
+	return createTaskWithUpdates(dir, opts, epicID, isEpic, title, body, nil, "")
 }
 
-func createTaskWithDir(dir string, opts GlobalOptions, lockPath, eventsPath, epicID string, isEpic bool, title, body string) (createOutput, error) {
+// createTaskWithUpdates creates a task and applies follow-up updates (state, claim,
+// result) in the same lock section and the same append, so the command is
+// all-or-nothing and the reply reflects the task as stored.
+func createTaskWithUpdates(dir string, opts GlobalOptions, epicID string, isEpic bool, title, body string, updates map[string]string, agentID string) (createOutput, error) {
+	eventsPath := getEventsPath(dir)
+	lockPath := filepath.Join(dir, "lock")
+	return createTaskWithDir(dir, opts, lockPath, eventsPath, epicID, isEpic, title, body, updates, agentID)
+}
+
+func createTaskWithDir(dir string, opts GlobalOptions, lockPath, eventsPath, epicID string, isEpic bool, title, body string, updates map[string]string, agentID string) (createOutput, error) {
 	var output createOutput
+	repoDir := filepath.Dir(dir)
 	err := withLock(lockPath, syscall.LOCK_EX, func() error {
 		graph, err := loadGraph(dir)
 		if err != nil {
@@ -381,7 +389,24 @@ func createTaskWithDir(dir string, opts GlobalOptions, lockPath, eventsPath, epi
 		if err != nil {
 			return err
 		}
-		if err := appendEvents(eventsPath, []Event{event}); err != nil {
+		events := []Event{event}
+		finalState := stateTodo
+		if len(updates) > 0 {
+			created := &Task{ID: id, UUID: uuid, EpicID: payload.EpicID, IsEpic: isEpic, State: stateTodo, Title: title, Body: body, CreatedAt: now, UpdatedAt: now}
+			followUps, err := buildUpdateEvents(repoDir, id, created, updates, agentID, now)
+			if err != nil {
+				return err
+			}
+			events = append(events, followUps...)
+			replayed, err := replayEvents(events)
+			if err != nil {
+				return err
+			}
+			if task := replayed.Tasks[id]; task != nil {
+				finalState = task.State
+			}
+		}
+		if err := appendEvents(eventsPath, events); err != nil {
 			return err
 		}
 		kind := "task"
@@ -393,7 +418,7 @@ func createTaskWithDir(dir string, opts GlobalOptions, lockPath, eventsPath, epi
 			ID:        id,
 			UUID:      uuid,
 			EpicID:    payload.EpicID,
-			State:     stateTodo,
+			State:     finalState,
 			Title:     title,
 			Body:      body,
 			CreatedAt: payload.CreatedAt,
@@ -510,57 +535,82 @@ func getGitHead(repoDir string) string {
 	return head
 }
 
-// writeResultEvent attaches a result file reference to a task.
-// The file must exist and be within the project root.
-func writeResultEvent(dir string, opts GlobalOptions, taskID, summary, relPath string) error {
-	lockPath := filepath.Join(dir, "lock")
-	eventsPath := getEventsPath(dir)
-	repoDir := filepath.Dir(dir)
+// buildResultEvent validates a result attachment for task and builds its event.
+// The caller holds the lock and has checked that the task is live.
+func buildResultEvent(repoDir string, task *Task, taskID, summary, relPath string, now time.Time) (Event, error) {
+	if isEpic(task) {
+		return Event{}, errors.New("cannot attach result to epic")
+	}
+	if err := validateResultSummary(summary); err != nil {
+		return Event{}, err
+	}
 
-	return withLock(lockPath, syscall.LOCK_EX, func() error {
-		graph, err := loadGraph(dir)
-		if err != nil {
-			return err
-		}
-		if _, ok := graph.Tombstones[taskID]; ok {
-			return prunedErr(taskID)
-		}
-		task, ok := graph.Tasks[taskID]
-		if !ok {
-			return fmt.Errorf("unknown task id %s", taskID)
-		}
-		if isEpic(task) {
-			return errors.New("cannot attach result to epic")
-		}
-		if err := validateResultSummary(summary); err != nil {
-			return err
-		}
+	// Validate and normalize path
+	cleanPath, err := validateResultPath(repoDir, relPath)
+	if err != nil {
+		return Event{}, err
+	}
 
-		// Validate and normalize path
-		cleanPath, err := validateResultPath(repoDir, relPath)
-		if err != nil {
-			return err
-		}
+	// Capture evidence
+	evidence, err := captureResultEvidence(repoDir, cleanPath)
+	if err != nil {
+		return Event{}, err
+	}
 
-		// Capture evidence
-		evidence, err := captureResultEvidence(repoDir, cleanPath)
-		if err != nil {
-			return err
-		}
-
-		now := time.Now().UTC()
-		event, err := newEvent("result", now, ResultEvent{
-			TaskID:            taskID,
-			Summary:           strings.TrimSpace(summary),
-			Path:              cleanPath,
-			Sha256AtAttach:    evidence.Sha256AtAttach,
-			MtimeAtAttach:     evidence.MtimeAtAttach,
-			GitCommitAtAttach: evidence.GitCommitAtAttach,
-			TS:                formatTime(now),
-		})
-		if err != nil {
-			return err
-		}
-		return appendEvents(eventsPath, []Event{event})
+	return newEvent("result", now, ResultEvent{
+		TaskID:            taskID,
+		Summary:           strings.TrimSpace(summary),
+		Path:              cleanPath,
+		Sha256AtAttach:    evidence.Sha256AtAttach,
+		MtimeAtAttach:     evidence.MtimeAtAttach,
+		GitCommitAtAttach: evidence.GitCommitAtAttach,
+		TS:                formatTime(now),
 	})
+}
+
+// buildUpdateEvents turns a set-style update map (result attachment plus field
+// updates) into events for one task. Nothing is written; any invalid part
+// rejects the whole request. The caller holds the lock.
+func buildUpdateEvents(repoDir, id string, task *Task, updates map[string]string, agentID string, now time.Time) ([]Event, error) {
+	rest := make(map[string]string, len(updates))
+	for key, value := range updates {
+		rest[key] = value
+	}
+	var events []Event
+	resultPath, hasPath := rest["result.path"]
+	resultSummary, hasSummary := rest["result.summary"]
+	if hasPath || hasSummary {
+		if !hasPath {
+			return nil, errors.New("result.summary requires result.path=")
+		}
+		if !hasSummary {
+			return nil, errors.New("result.path requires result.summary=")
+		}
+		event, err := buildResultEvent(repoDir, task, id, resultSummary, resultPath, now)
+		if err != nil {
+			return nil, err
+		}
+		events = append(events, event)
+		delete(rest, "result.path")
+		delete(rest, "result.summary")
+	}
+	if len(rest) == 0 {
+		return events, nil
+	}
+
+	// Build events using pure function, passing I/O-dependent body resolver
+	setEvents, remainingUpdates, err := buildSetEvents(id, task, rest, agentID, now, identityBodyResolver)
+	if err != nil {
+		return nil, err
+	}
+
+	// Check for any unhandled keys
+	if len(remainingUpdates) > 0 {
+		var unknown []string
+		for key := range remainingUpdates {
+			unknown = append(unknown, key)
+		}
+		return nil, fmt.Errorf("unknown keys: %s", strings.Join(unknown, ", "))
+	}
+	return append(events, setEvents...), nil
 }
